@@ -702,11 +702,11 @@ mutual
     | .ite c t none => .ite c (stripB t) none
     | .ite c t (some e) => .ite c (stripB t) (some (stripB e))
     | .repeat_ h body => .repeat_ h (stripB body)
+    | .action k ops => .action k (stripOps ops)
     | .setReg r v => .setReg r v
     | .units m => .units m
     | .actAll k => .actAll k
     | .setDefault => .setDefault
-    | .action k ops => .action k ops
     | .get v => .get v
     | .wait => .wait
     | .timeAt ps => .timeAt ps
@@ -722,7 +722,54 @@ mutual
   def stripB : Block → Block
     | .nil => .nil
     | .cons st rest => .cons (stripS st) (stripB rest)
+  def stripOp : Operand_ → Operand_
+    | .matrixBlock n body => .matrixBlock n (stripB body)
+    | .light n => .light n
+    | .group n => .group n
+    | .location n => .location n
+    | .zone n r => .zone n r
+    | .matrixInline n rows cols cf => .matrixInline n rows cols cf
+  def stripOps : Operands → Operands
+    | .nil => .nil
+    | .cons o rest => .cons (stripOp o) (stripOps rest)
 end
+
+theorem JC.append {X Y : Code} (hX1 : Closed.Neutral X) (hX : JC X) (hY : JC Y) : JC (X ++ Y) := by
+  intro k cnd off hk hb
+  rw [clsG_append hX1] at hb
+  rcases Nat.lt_or_ge k X.length with h | h
+  · rw [List.getElem?_append_left h] at hk
+    rw [List.getElem?_append_left (by simp [h])] at hb
+    obtain ⟨h0, h1⟩ := hX k cnd off hk hb
+    simp only [List.length_append]
+    omega
+  · rw [List.getElem?_append_right h] at hk
+    rw [List.getElem?_append_right (by simp [h]), length_clsG] at hb
+    obtain ⟨h0, h1⟩ := hY (k - X.length) cnd off hk hb
+    simp only [List.length_append]
+    omega
+
+/-- straight-line code without jumps and without routine markers -/
+theorem piece_nojump (xs : List Instr) (hp : xs.all Instr.plainI = true)
+    (hj : ∀ x ∈ xs, ∀ c off, x ≠ Instr.jump c off) :
+    Closed.Neutral (ins xs) ∧ JC (ins xs) ∧ mloc (ins xs) = ins xs := by
+  have hp' : ((ins xs).map Closed.gi).all Instr.plainI = true := by
+    have : (ins xs).map Closed.gi = xs := by simp [ins, Function.comp_def, Closed.gi]
+    rw [this]; exact hp
+  have hjc : JC (ins xs) := by
+    intro k cnd off hk _
+    rw [Closed.getElem?_ins] at hk
+    cases hx : xs[k]? with
+    | none => simp [hx] at hk
+    | some x =>
+      simp only [hx, Option.map_some, Option.some.injEq, G.i.injEq] at hk
+      exact absurd hk (hj x (List.mem_of_getElem? hx) cnd off)
+  exact ⟨neutral_plain hp', hjc, mloc_plain hp' hjc⟩
+
+theorem mloc_append3 {A B C : Code} (hA1 : Closed.Neutral A) (hA : JC A) (hB1 : Closed.Neutral B)
+    (hB : JC B) (hC : JC C) : mloc (A ++ B ++ C) = mloc A ++ mloc B ++ mloc C := by
+  rw [List.append_assoc, mloc_append hA1 hA (JC.append hB1 hB hC), mloc_append hB1 hB hC,
+    List.append_assoc]
 
 variable {V : String → Prop} {K : List String}
 
@@ -772,7 +819,22 @@ mutual
     | .units m, il, im, h, hf => mloc_leaf (by rw [stripS]) h hf
     | .actAll k, il, im, h, hf => mloc_leaf (by rw [stripS]) h hf
     | .setDefault, il, im, h, hf => mloc_leaf (by rw [stripS]) h hf
-    | .action k ops, il, im, h, hf => mloc_leaf (by rw [stripS]) h hf
+    | .action k ops, il, im, h, hf => by
+      have ho : Closed.wsOperands K false im ops = true := by simpa [Closed.wsStmt] using h
+      simp only [stripS, FragStmt] at hf
+      have hc := Closed.closed_operands k ops false im ho ⟨[], im⟩ ⟨rfl, rfl⟩ il (none, ⟨[], im⟩)
+      have hpre : ∀ (P : List Instr), P.all Instr.plainI = true →
+          (∀ x ∈ P, ∀ c off, x ≠ Instr.jump c off) →
+          mloc (ins P ++ ins [Instr.wait] ++ genOperands k ops) =
+            ins P ++ ins [Instr.wait] ++ genOperands k (stripOps ops) := by
+        intro P h1 h2
+        obtain ⟨a1, a2, a3⟩ := piece_nojump P h1 h2
+        obtain ⟨b1, b2, b3⟩ := piece_nojump [Instr.wait] rfl (by simp)
+        rw [mloc_append3 a1 a2 b1 b2 (jc_of_closed hc), a3, b3, mloc_operands k ops im ho hf]
+      cases k
+      · rw [genStmt, stripS, genStmt]; exact hpre _ rfl (by simp)
+      · rw [genStmt, stripS, genStmt]; exact hpre _ rfl (by simp)
+      · rw [genStmt, stripS, genStmt]; exact hpre _ rfl (by simp)
     | .get v, il, im, h, hf => mloc_leaf (by rw [stripS]) h hf
     | .wait, il, im, h, hf => mloc_leaf (by rw [stripS]) h hf
     | .timeAt ps, il, im, h, hf => mloc_leaf (by rw [stripS]) h hf
@@ -795,6 +857,51 @@ mutual
       have hr := Closed.closed_block rest false il im h.2 ⟨[], im⟩ ⟨rfl, rfl⟩
       rw [genBlock, stripB, genBlock, mloc_append hs.neutral (jc_of_closed hs) (jc_of_closed hr),
         mloc_stmt s il im h.1 hf.1, mloc_block rest il im h.2 hf.2]
+  theorem mloc_operand : ∀ (o : Operand_) (im : Bool), Closed.wsOperand K false im o = true →
+      FragOperand V (stripOp o) → mloc (genOperand o) = genOperand (stripOp o)
+    | .matrixBlock n body, im, h, hf => by
+      simp only [Closed.wsOperand, Bool.and_eq_true] at h
+      simp only [stripOp, FragOperand] at hf
+      have hb := Closed.closed_block body false false true h.2 ⟨[], true⟩ ⟨rfl, rfl⟩
+      obtain ⟨a1, a2, a3⟩ := piece_nojump [genName n, Instr.matrix]
+        (by cases n <;> rfl) (by intro x hx; cases n <;> simp [genName] at hx <;> rcases hx with rfl | rfl <;> simp)
+      obtain ⟨b1, b2, b3⟩ := piece_nojump
+        [Instr.endMatrix, Instr.moveq (.operand .matrixLight) (.reg .operand)] rfl (by simp)
+      rw [genOperand, stripOp, genOperand, mloc_append3 a1 a2 hb.neutral (jc_of_closed hb) b2, a3, b3,
+        mloc_block body false true h.2 hf]
+    | .light n, im, h, hf => by
+      rw [stripOp] at hf ⊢
+      exact mloc_plain (all_map_gi (nr_genOperand _ hf))
+        (jc_of_closed (Closed.closed_operand _ false im h ⟨[], im⟩ ⟨rfl, rfl⟩ false (none, ⟨[], im⟩)))
+    | .group n, im, h, hf => by
+      rw [stripOp] at hf ⊢
+      exact mloc_plain (all_map_gi (nr_genOperand _ hf))
+        (jc_of_closed (Closed.closed_operand _ false im h ⟨[], im⟩ ⟨rfl, rfl⟩ false (none, ⟨[], im⟩)))
+    | .location n, im, h, hf => by
+      rw [stripOp] at hf ⊢
+      exact mloc_plain (all_map_gi (nr_genOperand _ hf))
+        (jc_of_closed (Closed.closed_operand _ false im h ⟨[], im⟩ ⟨rfl, rfl⟩ false (none, ⟨[], im⟩)))
+    | .zone n r, im, h, hf => by
+      rw [stripOp] at hf ⊢
+      exact mloc_plain (all_map_gi (nr_genOperand _ hf))
+        (jc_of_closed (Closed.closed_operand _ false im h ⟨[], im⟩ ⟨rfl, rfl⟩ false (none, ⟨[], im⟩)))
+    | .matrixInline n rows cols cf, im, h, hf => by
+      rw [stripOp] at hf ⊢
+      exact mloc_plain (all_map_gi (nr_genOperand _ hf))
+        (jc_of_closed (Closed.closed_operand _ false im h ⟨[], im⟩ ⟨rfl, rfl⟩ false (none, ⟨[], im⟩)))
+  theorem mloc_operands (k : ActKind) : ∀ (ops : Operands) (im : Bool),
+      Closed.wsOperands K false im ops = true → FragOperands V (stripOps ops) →
+      mloc (genOperands k ops) = genOperands k (stripOps ops)
+    | .nil, im, h, hf => by rw [genOperands, stripOps, genOperands]; rfl
+    | .cons o rest, im, h, hf => by
+      simp only [Closed.wsOperands, Bool.and_eq_true] at h
+      simp only [stripOps, FragOperands] at hf
+      have ho := Closed.closed_operand o false im h.1 ⟨[], im⟩ ⟨rfl, rfl⟩ false (none, ⟨[], im⟩)
+      have hr := Closed.closed_operands k rest false im h.2 ⟨[], im⟩ ⟨rfl, rfl⟩ false (none, ⟨[], im⟩)
+      obtain ⟨b1, b2, b3⟩ := piece_nojump [opcodeOf k] (by cases k <;> rfl)
+        (by intro x hx; cases k <;> simp [opcodeOf] at hx <;> subst hx <;> simp)
+      rw [genOperands, stripOps, genOperands, mloc_append3 ho.neutral (jc_of_closed ho) b1 b2 (jc_of_closed hr),
+        b3, mloc_operand o im h.1 hf.1, mloc_operands k rest im h.2 hf.2]
 end
 
 end Sim
